@@ -17,6 +17,17 @@ PLAN = {
     "C11": [("filter", codecgen.c11_cases, "CodecTrace", "CodecTrace.cfg")],
     "C15": [("cmds", cmdsgen.cases, "CmdsTrace", "CmdsTrace.cfg")],
 }
+ENCODER_DESIGN = {
+    # property: (quick configs, thorough configs, model mutants that must violate)
+    "C06": (["Encoder_ascoded_q.cfg", "Encoder_ideal_q.cfg"], ["Encoder_ascoded.cfg", "Encoder_ideal.cfg"], ["Encoder_mut_c06.cfg"]),
+    "C07": (["Encoder_ascoded_q.cfg"], ["Encoder_ascoded.cfg"], []),
+    "C11": (["Encoder_ascoded_q.cfg", "Encoder_ideal_q.cfg"], ["Encoder_ascoded.cfg", "Encoder_ideal.cfg"], ["Encoder_mut_c11.cfg"]),
+}
+ENCODER_SCOPE = ("EncoderMC.tla exhaustive: Command::build over all names of length <= 3 over {a, Z, _, 0, blank, LF, \", 200, 0x01} + framing look-alikes; up to 3 add_argument calls "
+                 "(string arguments through escape_argument, user-defined renderers emitting arbitrary bytes) with summed length <= 3 (quick) / 4 (thorough) over "
+                 "{a, blank, TAB, 0x01, LF, NUL, \", ', \\, 200}; filter construction histories (leaf with every operator, negate, and-left, and-right, and-not-self) up to 5 / 6 nodes, values of "
+                 "length <= 2 / 3 over {a, blank, \", ', \\, (, ), 200} + look-alikes; invariants: round trip through MPD's tokenizer (and filter grammar) except exactly the known causes "
+                 "(signature exactness), one line per command, rollback after rejection, names readable by NextWord, list framing; ideal-encoder configs hold strictly")
 TAGS = {"C06": {"C06", "PANIC"}, "C07": {"C07", "PANIC"}, "C11": {"C11", "PANIC"}, "C15": {"C15"}}
 
 RULES = {
@@ -70,6 +81,20 @@ def _run(prop, tier, replay, seed, work, t0):
     gaps = None
     all_cases = {}
     plan = PLAN[prop]
+    design, selftests, drift, bound = [], [], [], 0
+    if not replay and prop in ENCODER_DESIGN:
+        # ---- role 1: the encoder as coded (Encoder.tla) composed with the peer's tokenizer / filter grammar, every builder and filter history
+        # within the bounds (EncoderMC.tla): as coded the known causes are the ONLY failures and exactly the failures; the ideal encoder passes strictly
+        for cfg in (ENCODER_DESIGN[prop][0] if quick else ENCODER_DESIGN[prop][1]):
+            r = C.design_check("EncoderMC", cfg, work, workers=8 if quick else 12, timeout=300 if quick else 1500, xmx="8g", coverage=False)
+            design.append({k: r.get(k) for k in ("module", "cfg", "states", "transitions", "depth", "wall_s")})
+        # ---- vacuity guard: the strict invariant must FAIL on the encoder as coded (the model exhibits the known finding)
+        for cfg in ENCODER_DESIGN[prop][2]:
+            r = C.tlc_model("EncoderMC", cfg, work, workers=4, timeout=200, coverage=False)
+            hit = bool(r["violated"])
+            selftests.append({"cfg": cfg, "tripped": hit})
+            if not hit:
+                raise C.ToolError(f"self-test {cfg} did not trip its invariant: the encoder invariants may be vacuous")
     if replay:
         with open(replay) as f:
             rp = json.load(f)
@@ -101,6 +126,8 @@ def _run(prop, tier, replay, seed, work, t0):
         for tp, tuples, n in C.tlc_traces_parallel(module, cfg, traces, work, jobs=min(8, len(traces)), timeout=2400):
             nstates += n
             for t in tuples:
+                if t[0] == "DRIFT":
+                    drift.append({"id": t[1], "what": t[3]})
                 if t[0] != "VIOL":
                     continue
                 _, cid, line, vs = t
@@ -133,6 +160,11 @@ def _run(prop, tier, replay, seed, work, t0):
     code = verdict.finish(write_replay)
     if replay:
         return code
+    if prop in ENCODER_DESIGN:
+        bound = sum(1 for (_, _, _, c) in all_cases.values() if "tree" in c or (c.get("kind") == "cmd" and all(a.get("ty") in ("str", "string", "cow", "cowb") and len(a.get("v", [])) <= 200 for a in c.get("args", []))))
+        if drift:
+            print(f"NOTE model-drift: the code's encoder no longer produces the bytes Encoder.tla predicts in {len(drift)} of {bound} bound cases (first: {json.dumps(drift[0])[:300]}); "
+                  "the exhaustive EncoderMC result is not transferable to this tree; verdicts come from the peer model only")
     cov = {
         "states": nstates, "transitions": nstates, "traces_validated_against_impl": total_cases,
         "samples": samples[:2], "evaluations": total_cases, "distinct_nontrivial": len(distinct), "rule": RULES[prop],
@@ -141,6 +173,14 @@ def _run(prop, tier, replay, seed, work, t0):
                        "The enumerated part of the case set is exhaustive over the stated class alphabet and lengths; the seeded part is not.",
         "known_finding_hits": {k: len(v) for k, v in verdict.known_hits.items()},
     }
+    if prop in ENCODER_DESIGN:
+        cov["design_checks"] = design
+        cov["model_mutants_tripped"] = selftests
+        cov["states"] += sum(d.get("states") or 0 for d in design)
+        cov["transitions"] += sum(d.get("transitions") or 0 for d in design)
+        cov["encoder_model_binding"] = {"cases_bound": bound, "drift": len(drift), "samples": drift[:3],
+                                        "meaning": "Encoder.tla (as coded) predicts the builder's verdicts and the exact bytes of every bound case; 0 drift = the exhaustive EncoderMC result describes this code"}
+        cov["model_scope"] = ENCODER_SCOPE
     if gaps is not None:
         cov["commands_in_definitions_rs_without_table_row"] = gaps
     assumptions = [
